@@ -7,7 +7,7 @@ from .. import core, gen, impl_thr, scen
 from . import c01
 
 ID = "C04"
-BUDGET = {"quick": 400, "thorough": 40000}
+BUDGET = {"quick": 1600, "thorough": 200000}
 RULE = ("scenario = scheduler (3 tz classes) with 0-8 jobs of mixed types (batched, limited, windowed; positive weights), "
         "default priority function, no limit; 2-10 polls exactly at a due instant, 1us before, between, far after, some "
         "forced; correspondence = Lean selection model on the observed (due, weight) table vs the invoked jobs; "
